@@ -125,6 +125,7 @@ func init() {
 		"crypto/internal/fips140.setIndicator":      nop,
 		"crypto/internal/fips140.getIndicator":      func(ex *Exec, fr *frame, a []value) value { return ex.C.Const(8, 0) },
 		"crypto/internal/fips140.ResetServiceIndicator": nop,
+		"crypto/fips140.Enabled":                    func(ex *Exec, fr *frame, a []value) value { return ex.C.Bool(false) },
 		"crypto/internal/fips140only.Enabled":       func(ex *Exec, fr *frame, a []value) value { return ex.C.Bool(false) },
 
 		// --- time ---
